@@ -46,8 +46,15 @@ where
     pub(super) fn finish(&mut self, header: &sam::Header) -> io::Result<()> {
         match self {
             Self::Sam(writer) => writer.finish(header),
-            Self::SamGz(writer) => writer.finish(header),
-            Self::Bam(writer) => writer.finish(header),
+            // The BGZF EOF block must not be left to `Drop`, which cannot report a failure.
+            Self::SamGz(writer) => {
+                writer.finish(header)?;
+                writer.get_mut().try_finish()
+            }
+            Self::Bam(writer) => {
+                writer.finish(header)?;
+                writer.try_finish()
+            }
             Self::BamRaw(writer) => writer.finish(header),
             Self::Cram(writer) => writer.finish(header),
         }
